@@ -180,3 +180,5 @@ func SortedKeys(m map[string]int) []string {
 	sort.Strings(ks)
 	return ks
 }
+
+func NewRand(seed int64) *rand.Rand { return rand.New(rand.NewSource(seed)) }
